@@ -82,4 +82,6 @@ def same_quantity(q1, q2, rtol=1e-9, atol=0.0):
     v1 = convert(q1[0], q1[1], q2[1])
     if math.isnan(v1) or math.isnan(q2[0]):
         return math.isnan(v1) and math.isnan(q2[0])
+    if math.isinf(v1) or math.isinf(q2[0]):
+        return v1 == q2[0]
     return abs(v1 - q2[0]) <= atol + rtol * max(abs(v1), abs(q2[0]))
